@@ -34,6 +34,27 @@ unsafe fn madd52hi(z: u64x4, x: u64x4, y: u64x4) -> u64x4 {
     _mm256_madd52hi_epu64(z.into(), x.into(), y.into()).into()
 }
 
+/// Verification-only bound monitor (compiled only with `--cfg curve25519_dalek_verif` and debug
+/// assertions): `vpmadd52` reads the low 52 bits of each limb, so every limb of a reduced vector
+/// handed to a multiplication must be below 2^52.
+#[cfg(all(curve25519_dalek_verif, debug_assertions))]
+#[inline(never)]
+fn verif_check_reduced(x: &F51x4Reduced, what: &'static str) {
+    for v in x.0.iter() {
+        // SAFETY: u64x4 is a transparent wrapper around a 256-bit vector of four u64 lanes.
+        let lanes: [u64; 4] = unsafe { core::mem::transmute(*v) };
+        for l in lanes.iter() {
+            assert!(
+                *l < (1u64 << 52),
+                "verif bound monitor: {} operand limb {} does not fit 52 bits",
+                what,
+                l
+            );
+        }
+    }
+}
+
+
 /// A vector of four field elements in radix 2^51, with unreduced coefficients.
 #[derive(Copy, Clone, Debug)]
 pub struct F51x4Unreduced(pub(crate) [u64x4; 5]);
@@ -270,6 +291,8 @@ impl F51x4Reduced {
 
     #[inline]
     pub fn square(&self) -> F51x4Unreduced {
+        #[cfg(all(curve25519_dalek_verif, debug_assertions))]
+        verif_check_reduced(self, "square");
         unsafe {
             let x = &self.0;
 
@@ -437,6 +460,8 @@ impl<'a> Mul<(u32, u32, u32, u32)> for &'a F51x4Reduced {
     type Output = F51x4Unreduced;
     #[inline]
     fn mul(self, scalars: (u32, u32, u32, u32)) -> F51x4Unreduced {
+        #[cfg(all(curve25519_dalek_verif, debug_assertions))]
+        verif_check_reduced(self, "mul by small scalars");
         unsafe {
             let x = &self.0;
             let y = u64x4::new(
@@ -489,6 +514,10 @@ impl<'a, 'b> Mul<&'b F51x4Reduced> for &'a F51x4Reduced {
     type Output = F51x4Unreduced;
     #[inline]
     fn mul(self, rhs: &'b F51x4Reduced) -> F51x4Unreduced {
+        #[cfg(all(curve25519_dalek_verif, debug_assertions))]
+        verif_check_reduced(self, "mul lhs");
+        #[cfg(all(curve25519_dalek_verif, debug_assertions))]
+        verif_check_reduced(rhs, "mul rhs");
         unsafe {
             // Inputs
             let x = &self.0;
